@@ -318,18 +318,32 @@ M.contract(
 # statement lists; symbol sets abstract
 USES = ('(self[b].symbol in self[a].rhs_symbols if self[b].is_assignment'
         ' else not symset_disjoint(self[a].rhs_symbols, self[b].amounts))')
+# (stated as a sandwich so that a graph linking only the LATEST earlier definition -- equally sound for the
+# analyses built on it -- satisfies the contract too: no spurious edge, and no missing edge to the latest
+# earlier assignment of a symbol read, nor to an earlier ODE system read)
+LATEST = ('(not self[b].is_assignment or not any(c > b and self[c].is_assignment and self[c].symbol == self[b].symbol'
+          ' for c in range(a)))')
+
+
+def _sandwich(g, cond_a, a='a'):
+    u = USES.replace('self[a]', f'self[{a}]')
+    lt = LATEST.replace('range(a)', f'range({a})')
+    rng = 'for b in range(len(self))' + ('' if a != 'a' else ') for a in range(len(self))')
+    pre = 'all(' if a == 'a' else ''
+    return [f'{pre}all(implies(({a}, b) in {g}, {cond_a} and b < {a} and {u}) {rng})',
+            f'{pre}all(implies({cond_a} and b < {a} and {u} and {lt}, ({a}, b) in {g}) {rng})']
+
+
 M.contract(
     'Statements._create_dependency_graph',
     params={'self': Seq(Stmt)},
     requires=['all(s.is_assignment or s.is_ode for s in self)'],
-    ensures=[f'all(all(((a, b) in result) == (b < a and {USES}) for b in range(len(self))) for a in range(len(self)))'],
+    ensures=_sandwich('result', 'True'),
     loops=[
-        Loop(counter='k0', inv=[
-            f'all(all(((a, b) in graph) == (a > len(self) - 1 - k0 and b < a and {USES}) for b in range(len(self))) for a in range(len(self)))',
-        ]),
+        Loop(counter='k0', inv=_sandwich('graph', 'a > len(self) - 1 - k0')),
         Loop(counter='k1', inv=[
-            f'all(all(implies(a != i, ((a, b) in graph) == (a > i and b < a and {USES})) for b in range(len(self))) for a in range(len(self)))',
-            f'all(((i, b) in graph) == (b > i - 1 - k1 and b < i and {USES.replace("self[a]", "self[i]")}) for b in range(len(self)))',
-        ]),
+            f'all(all(implies(a != i and (a, b) in graph, a > i and b < a and {USES}) for b in range(len(self))) for a in range(len(self)))',
+            f'all(all(implies(a > i and b < a and {USES} and {LATEST}, (a, b) in graph) for b in range(len(self))) for a in range(len(self)))',
+        ] + _sandwich('graph', 'b > i - 1 - k1', a='i')),
     ],
 )
